@@ -433,7 +433,16 @@ func (t Table) Lookup(req *http.Request, trace string, pick picker, match matche
 			if target.RedirectCode != 0 {
 				req.URL.Host = req.Host
 				target.BuildRedirectURL(req.URL) // build redirect url and cache in target
-				if target.RedirectURL.Scheme == req.Header.Get("X-Forwarded-Proto") &&
+				// the scheme the client used: as reported by a proxy in front of
+				// fabio, otherwise that of the connection itself
+				proto := req.Header.Get("X-Forwarded-Proto")
+				if proto == "" {
+					proto = "http"
+					if req.TLS != nil {
+						proto = "https"
+					}
+				}
+				if target.RedirectURL.Scheme == proto &&
 					target.RedirectURL.Host == req.Host &&
 					target.RedirectURL.Path == req.URL.Path {
 					log.Print("[INFO] Skipping redirect with same scheme, host and path")
